@@ -551,8 +551,8 @@ pub fn c10<T: Fx>(thorough: bool) -> Vec<CellDef> {
             let r = alphabet(32, 2, true);
             let mut s = vec![(String::new(), Space::prod2(r.clone(), r.clone(), "A(32,2,rich)^2"))];
             if t {
-                let l: Vec<u32> = (0..lattice_len(32, 16)).map(|i| lattice_key(32, 16, i)).collect();
-                s.push(("#L".into(), Space::prod2(l.clone(), l, "lattice(top 16 bits x low menu)^2")));
+                let l: Vec<u32> = (0..lattice_len(32, 19)).map(|i| lattice_key(32, 19, i)).collect();
+                s.push(("#L".into(), Space::prod2(l.clone(), l, "lattice(top 13 bits x low menu)^2")));
             }
             s
         } else {
